@@ -262,6 +262,81 @@ def _integer_power(ctx, model):
            "refused n < 0")
 
 
+def _rational_arithmetic(ctx, model):
+    """pymbolic.rational.Rational is exact arithmetic on (numerator,
+    denominator) pairs of ring elements:
+      * none of its operators uses true division -- '/' on two integers gives a
+        float, whatever follows is no longer exact (and floats have no gcd);
+      * r**n raises numerator and denominator to n, each in its own place."""
+    from ..absint import Interp, Obj, Opaque, Poly, Raised
+    rc = model.cls("pymbolic.rational:Rational")
+    n_ops = 0
+    for name, mem in sorted(rc.members.items()):
+        if mem.kind != "func" or not (name.startswith("__") and name.endswith("__")):
+            continue
+        if name in ("__init__", "__eq__", "__hash__", "__bool__", "__setattr__",
+                    "__delattr__", "__getinitargs__", "__getstate__",
+                    "__setstate__", "__repr__", "__str__"):
+            continue
+        n_ops += 1
+        divs = [b for b in ast.walk(mem.node) if isinstance(b, ast.BinOp)
+                and isinstance(b.op, ast.Div)
+                and any(isinstance(x, ast.Attribute) and x.attr in (
+                    "Numerator", "Denominator") or isinstance(x, ast.Name)
+                    for x in ast.walk(b))]
+        ctx.ob(f"K/Rational.{name}/no-true-division", not divs,
+               rc.module.loc(divs[0] if divs else mem.node),
+               f"Rational.{name} divides exactly (//) or not at all" if not divs
+               else f"Rational.{name} computes '{ast.unparse(divs[0])}' with "
+               "true division: on integers that is a float, the exact "
+               "numerator/denominator pair is lost (and the next gcd is asked "
+               "of a float: AttributeError)")
+    ctx.floor("Rational operator methods", n_ops, 6)
+    # ... nor do the ring traits the operators compute with
+    et = model.cls("pymbolic.traits:EuclideanRingTraits")
+    for name, mem in sorted(et.members.items()):
+        if mem.kind != "func":
+            continue
+        divs = [b for b in ast.walk(mem.node) if isinstance(b, ast.BinOp)
+                and isinstance(b.op, ast.Div)]
+        ctx.ob(f"K/EuclideanRingTraits.{name}/no-true-division", not divs,
+               et.module.loc(divs[0] if divs else mem.node),
+               f"EuclideanRingTraits.{name} divides exactly (//) or not at all"
+               if not divs else
+               f"EuclideanRingTraits.{name} computes '{ast.unparse(divs[0])}' "
+               "with true division: ring elements become floats")
+    pw = rc.members.get("__pow__")
+    if pw is None or pw.kind != "func":
+        raise AnalysisError("Rational.__pow__ not found")
+    N, D = Poly.sym("N"), Poly.sym("D")
+    bad = None
+    for n in range(0, 4):
+        me = Obj("Rational", {"Numerator": N, "Denominator": D})
+        built = []
+
+        def mk(it_, n_, a, k, _b=built):
+            _b.append(tuple(a))
+            return Obj("Rational", {"Numerator": a[0],
+                                    "Denominator": a[1] if len(a) > 1 else 1})
+        it = Interp(calls={"Rational": mk, "type(self)": mk},
+                    attrs=lambda it_, n_, b, at: Opaque(ast.unparse(n_)),
+                    resolve=lambda c, nm: None)
+        try:
+            got = it.call_function(pw.node, [me, n])
+        except Raised:
+            got = None
+        ok = isinstance(got, Obj) and Poly.lift(got.fields["Numerator"]) == N ** n \
+            and Poly.lift(got.fields["Denominator"]) == D ** n
+        if not ok:
+            bad = (n, got)
+            break
+    ctx.ob("P/Rational.__pow__/componentwise", bad is None,
+           rc.module.loc(pw.node),
+           "(N/D)**n is N**n / D**n for n = 0..3" if bad is None else
+           f"Rational(N, D)**{bad[0]} gives {bad[1]!r}, not N**{bad[0]} / "
+           f"D**{bad[0]}")
+
+
 def _kernels(ctx, model):
     """integer_power and extended_euclidean interpreted over polynomial normal
     forms (pv/absint.py, pv/kernels.py): bounded enumeration for witnesses, a
@@ -332,7 +407,10 @@ def _kernels(ctx, model):
             [Qs, Rs], [Rs, Qs]) else (_ for _ in ()).throw(
                 AnalysisError("lcm: gcd is handed other operands")),
         "abs": lambda it_, n_, a, k: a[0],       # up to sign
-        "<binop>": exact_div})
+        "<binop>": exact_div},
+        # (a symbolic gcd is the gcd of a non-zero pair; the zero pair is
+        # decided on its own below)
+        decide=lambda it_, n_, v: True)
     try:
         gv = it_g.call_function(gfn, [Qs, Rs])
         lv = it_l.call_function(lfn, [Qs, Rs])
@@ -349,6 +427,19 @@ def _kernels(ctx, model):
            "exact)" if ok_g and ok_l else
            f"gcd(q, r) evaluates to {gv}, lcm(q, r) to {lv}: lcm * gcd is not "
            "q*r up to sign")
+    # ... and on the zero pair (in the quantifier: "negative, zero, equal"):
+    # gcd(0, 0) is 0, the only common multiple of 0 and 0 is 0
+    it_z = Interp(calls={"gcd": lambda it_, n_, a, k: 0,
+                         "abs": lambda it_, n_, a, k: abs(a[0])})
+    try:
+        zv = it_z.call_function(lfn, [0, 0])
+    except Raised as r_:
+        zv = f"raises {r_.exc or 'an error'} at line {r_.node.lineno}"
+    ctx.ob("P/lcm/zero-pair", zv == 0 and not isinstance(zv, bool), lm.loc(lfn),
+           "lcm(0, 0) is 0" if zv == 0 else
+           f"lcm(0, 0) {zv if isinstance(zv, str) else 'gives ' + repr(zv)}: "
+           "gcd(0, 0) is 0 and lcm divides by it (math.lcm(0, 0) is 0)")
+    _rational_arithmetic(ctx, model)
     # Horner evaluation of Polynomial nodes
     ev = model.cls("pymbolic.mapper.evaluator:EvaluationMapper")
     mem = model.lookup(ev, "map_polynomial")
